@@ -37,7 +37,7 @@ ASSUMPTIONS = ["zero interest rate (interest is C06) so that the ledger knows th
                "ending in Broker.net_liquidation_value while the account is insolvent"]
 REQUIRED = ["C09:interest-ruin-reached", "C09:nonraising-valuation-is-current", "C09:insolvent-decision-trades-nothing", "C09:valuation-raises-iff-nonpositive", "C09:refused-after-end",
             "C09:reset-reenables", "C09:control-stays-solvent", "C09:exact-zero-is-insolvent"]
-REQUIRED_CATS = ["short-valued-at-zero-quote-before-rally", "scenario:interest-ruin", "broker-level:insolvent", "ruin:latent", "ruin:nonlatent", "severity:exact-zero", "severity:below", "severity:far-below", "severity:control",
+REQUIRED_CATS = ["second-episode-on-same-environment", "short-valued-at-zero-quote-before-rally", "scenario:interest-ruin", "broker-level:insolvent", "ruin:latent", "ruin:nonlatent", "severity:exact-zero", "severity:below", "severity:far-below", "severity:control",
                  "first-step", "later-step", "spot-long", "spot-short", "margined"]
 REQUIRED_HITS = ["Broker.transact", "Broker.rebalance", "Broker.net_liquidation_value"]
 TECHNIQUE = "runtime monitoring with fault injection: ruining price paths at every position of a step; ledger replay decides decision-time NLV; transact hook proves no trade"
@@ -309,65 +309,82 @@ def case(ctx, i, tier):
         return v
 
     with ep.EpMonitor(sink) as mon:
-        env.reset()
-        consume()
-        ended = False
-        became_insolvent = False
-        k = 0
-        calls_after_end = 0
-        while k < n + 3 and calls_after_end < 2:
-            a = np.array([w if k >= jo else 0.0])
-            h0 = env.broker.holdings_quantity
-            n0 = len(env.broker.track_record)
-            tx0 = mon.n_transact
-            ev0 = len([x for x in sink.log if x[0] == "M"])
-            exc = None
-            out = None
-            try:
-                out = env.step(a)
-            except BaseException as e:   # noqa
-                exc = e
-            dec = consume()
-            v = valuation_clause("after-step-%d" % k)
-            insolvent_now = v <= 0
-            if ended:
-                calls_after_end += 1
-                ok = isinstance(exc, EndOfEpisodeError) and mon.n_transact == tx0 and len(env.broker.track_record) == n0 \
-                    and env.broker.holdings_quantity == h0 and len([x for x in sink.log if x[0] == "M"]) == ev0
-                ctx.check("C09:refused-after-end", ok, step=k, outcome=repr(exc) if exc else "returned", transacts=mon.n_transact - tx0)
-                k += 1
-                continue
-            dec_insolvent = dec is not None and dec <= 0
-            if dec_insolvent:
-                ctx.check("C09:insolvent-decision-trades-nothing",
-                          mon.n_transact == tx0 and len(env.broker.track_record) == n0 and
-                          {x: y for x, y in env.broker.holdings_quantity.items() if not isinstance(x, Cash)} ==
-                          {x: y for x, y in h0.items() if not isinstance(x, Cash)},
-                          step=k, decision_nlv=dec, transacts=mon.n_transact - tx0, records=len(env.broker.track_record) - n0)
-                if exact:
-                    ctx.check("C09:exact-zero-is-insolvent", dec == 0.0, decision_nlv=dec)
-            if exc is not None:
-                key = classify_escape(exc)
-                if key and insolvent_now:
-                    ctx.finding(key, step=k, where=where, severity=severity, reward=type(rw).__name__, nlv=v)
+        n_episodes = 2 if rng.random() < 0.4 else 1
+        if n_episodes == 2:
+            # the SAME scenario is played a second time on the same environment (backtest twice, multi-episode
+            # training): the ruinous quote must reach the second episode as it reached the first
+            ctx.cat("second-episode-on-same-environment")
+        for episode_nr in range(n_episodes):
+            led = Ledger(cash0, fees)
+            pos[0] = 0
+            del sink.log[:]
+            env.reset()
+            consume()
+            ended = False
+            became_insolvent = False
+            k = 0
+            calls_after_end = 0
+            while k < n + 3 and calls_after_end < 2:
+                a = np.array([w if k >= jo else 0.0])
+                h0 = env.broker.holdings_quantity
+                n0 = len(env.broker.track_record)
+                tx0 = mon.n_transact
+                ev0 = len([x for x in sink.log if x[0] == "M"])
+                exc = None
+                out = None
+                try:
+                    out = env.step(a)
+                except BaseException as e:   # noqa
+                    exc = e
+                dec = consume()
+                v = valuation_clause("after-step-%d" % k)
+                insolvent_now = v <= 0
+                if ended:
+                    calls_after_end += 1
+                    ok = isinstance(exc, EndOfEpisodeError) and mon.n_transact == tx0 and len(env.broker.track_record) == n0 \
+                        and env.broker.holdings_quantity == h0 and len([x for x in sink.log if x[0] == "M"]) == ev0
+                    ctx.check("C09:refused-after-end", ok, step=k, outcome=repr(exc) if exc else "returned", transacts=mon.n_transact - tx0)
+                    k += 1
+                    continue
+                dec_insolvent = dec is not None and dec <= 0
+                if where == "latent" and severity != "control" and k == jr and not became_insolvent:
+                    # (decided from the DATA: the ruinous quote is stamped 30 s after timestep jr, inside the latency, so
+                    #  it front-runs decision jr - in every episode played on this scenario)
+                    ctx.check("C09:latent-ruin-front-runs-decision", dec_insolvent, episode=episode_nr, step=k, decision_nlv=dec)
+                if dec_insolvent:
+                    ctx.check("C09:insolvent-decision-trades-nothing",
+                              mon.n_transact == tx0 and len(env.broker.track_record) == n0 and
+                              {x: y for x, y in env.broker.holdings_quantity.items() if not isinstance(x, Cash)} ==
+                              {x: y for x, y in h0.items() if not isinstance(x, Cash)},
+                              step=k, decision_nlv=dec, transacts=mon.n_transact - tx0, records=len(env.broker.track_record) - n0)
+                    if exact:
+                        ctx.check("C09:exact-zero-is-insolvent", dec == 0.0, decision_nlv=dec)
+                if exc is not None:
+                    key = classify_escape(exc)
+                    if key and insolvent_now:
+                        ctx.finding(key, step=k, where=where, severity=severity, reward=type(rw).__name__, nlv=v)
+                    else:
+                        ctx.violation("C09:step-failed", step=k, error=repr(exc)[:200],
+                                      tb=[(f.filename[-30:], f.name) for f in traceback.extract_tb(exc.__traceback__)][-6:])
+                        return
+                    if dec_insolvent:
+                        ended = True
                 else:
-                    ctx.violation("C09:step-failed", step=k, error=repr(exc)[:200],
-                                  tb=[(f.filename[-30:], f.name) for f in traceback.extract_tb(exc.__traceback__)][-6:])
-                    return
-                if dec_insolvent:
-                    ended = True
-            else:
-                done = out[2]
-                if insolvent_now and not became_insolvent:
-                    ctx.check("C09:ruining-step-reports-done", done is True, step=k, nlv=v)
-                if dec_insolvent:
-                    ctx.check("C09:insolvent-decision-ends-episode", done is True, step=k)
-                if done:
-                    ended = True
-            became_insolvent = became_insolvent or insolvent_now
-            k += 1
-        if severity == "control":
-            ctx.check("C09:control-stays-solvent", not became_insolvent and exc is None or ended, became_insolvent=became_insolvent)
+                    done = out[2]
+                    if insolvent_now and not became_insolvent:
+                        ctx.check("C09:ruining-step-reports-done", done is True, step=k, nlv=v)
+                    if dec_insolvent:
+                        ctx.check("C09:insolvent-decision-ends-episode", done is True, step=k)
+                    if done:
+                        ended = True
+                became_insolvent = became_insolvent or insolvent_now
+                k += 1
+            if severity != "control":
+                # (decided from the DATA, not from what was delivered: the scenario's ruinous quote exists in every
+                #  episode played on it)
+                ctx.check("C09:ruinous-quote-takes-effect", became_insolvent, episode=episode_nr, where=where, severity=severity)
+            if severity == "control":
+                ctx.check("C09:control-stays-solvent", not became_insolvent and exc is None or ended, became_insolvent=became_insolvent)
         # reset re-enables stepping
         del sink.log[:]
         pos[0] = 0
